@@ -9,6 +9,9 @@ complete instance ``__dict__``.  The invariant is always the same differential o
     normalisation model), no request raises unless the fresh object raises the same error for it, and the
     configuration attributes given to the constructor never change.
 
+Every alphabet also holds the exceptional-exit requests of its class (empty-result early returns and requests
+that raise on a fresh object as well): state that is restored on the normal exit only is invisible otherwise.
+
 Sub-systems: Background2D (all read orders, run to fixpoint), the six pixel apertures (setters interleaved
 with reads), RadialProfile / CurveOfGrowth (reads interleaved with normalize / unnormalize), PSFPhotometry
 and IterativePSFPhotometry (call sequences), the three star finders, Ellipse.fit_image, LocalBackground,
@@ -34,13 +37,30 @@ RULE = ('per class and configuration: BFS over ALL histories of the listed reque
         'influence a later one: at least two reads/calls (Background2D, photometry, finders, Ellipse, '
         'LocalBackground, GriddedPSFModel), at least one assignment and one read (apertures), at least one read '
         'and one normalize/unnormalize (profiles); each observation is compared with a fresh object given only '
-        'that request')
+        'that request.  Every request alphabet contains, next to the normal requests, the EXCEPTIONAL-EXIT requests '
+        'of the class -- early returns with an empty result (finder detects nothing / every detection fails the '
+        'cuts; Ellipse.fit_image "Everything is fixed" and "No meaningful fit was possible"; normalize() of an '
+        'all-zero profile; LocalBackground without any pixel) and requests that raise on a fresh object too '
+        '(rejected setter values, unknown normalize method / integration mode, mask of the wrong shape, source '
+        'without overlap, source completely masked in the middle of the fit loop, arrays that cannot be broadcast) '
+        '-- and because all histories are enumerated each of them is followed by every request; for Ellipse the '
+        'alphabet is the full product (4 exit paths of fit_image) x (7 per-call overrides of the geometry '
+        'settings) for a default and a non-default geometry.  Which exit a request really takes is measured on '
+        'the fresh object (counters *_calls_exit_*, *_calls_straight_after_exit_*, profile_normalize_exit_*)')
 ASSUMPTIONS = ['a state is the instance __dict__ (plus, for StarFinder/Ellipse, the caller-owned kernel/geometry it '
                'aliases); equal digests have equal futures',
                'the differential oracle trusts a freshly constructed object for a single request (single-request '
                'correctness is the business of C01-C20, not of C09)',
                'numpy, scipy (zoom, splines, least_squares) and astropy (modeling, tables, units, SigmaClip) are trusted',
                'every call gets its own copy of the input arrays/tables: mutation of caller inputs is C10, not C09',
+               'a request that raises on a FRESH object is compared by exception type only (whether it should raise is '
+               'not C09\'s business); what C09 demands is that the requests after it answer like a fresh object and '
+               'that the configuration is unchanged',
+               'background estimators are given their own SigmaClip(sigma=3, maxiters=10) (same values as the library '
+               'default, which is ONE module-level instance shared by all estimators: its never-read-back private '
+               'bookkeeping would otherwise be explored state living outside the object)',
+               'Background2D has no exceptional request: all its validation is in the constructor, every public read '
+               'of a constructed object succeeds',
                'RadialProfile.gaussian_fit/gaussian_profile/gaussian_fwhm are excluded: their docstrings state that '
                'they keep the normalisation in force when first read']
 
@@ -269,6 +289,9 @@ class ApSystem:
         for a, vs in self.attrs.items():
             ops += [('set', a, i) for i in range(len(vs))]
         ops += [('read', r) for r in AP_READS]
+        # rejected assignments (documented validation errors of the attribute descriptors): afterwards every read
+        # must still answer for the values in force before -- the exceptional exit of a setter
+        ops += [('set_invalid', 'positions', 'three-numbers'), ('set_invalid', next(iter(self.attrs)), 'negative')]
         return ops
 
     def canon(self, st):
@@ -279,6 +302,13 @@ class ApSystem:
         if k not in self._fresh:
             ap = self._build(vals)
             self._fresh[k] = observe(lambda: _ap_read(ap, name, self.img))
+        return self._fresh[k]
+
+    def fresh_set_invalid(self, vals, attr, bad):
+        k = (repr(sorted(vals.items())), 'set_invalid', attr)
+        if k not in self._fresh:
+            ap = self._build(vals)
+            self._fresh[k] = observe(lambda: setattr(ap, attr, bad))
         return self._fresh[k]
 
     def apply(self, st, op, report):
@@ -294,6 +324,18 @@ class ApSystem:
                 return False
             st.aux['vals'] = dict(st.aux['vals'], **{attr: val})
             return True
+        if op[0] == 'set_invalid':
+            _, attr, what = op
+            bad = [1.0, 2.0, 3.0] if what == 'three-numbers' else -1.0
+            r = observe(lambda: setattr(st.obj, attr, bad))
+            f = self.fresh_set_invalid(st.aux['vals'], attr, bad)
+            self.counters['validation_error_calls'] = self.counters.get('validation_error_calls', 0) + 1
+            c = compare(r, f)
+            if c:
+                report('setter-' + c[0], f'{self.cls}.{attr}:invalid', repr(r), repr(f), c[1])
+                return False
+            # the attribute values in force are unchanged; an accepted 'invalid' value cannot be followed by the model
+            return isinstance(r, Raised)
         name = op[1]
         obs = observe(lambda: _ap_read(st.obj, name, self.img))
         exp = self.fresh(st.aux['vals'], name)
@@ -323,7 +365,7 @@ class ApSystem:
 
     def nontrivial(self, hist):
         kinds = [h[0] for h in hist]
-        return 'set' in kinds and 'read' in kinds
+        return ('set' in kinds or 'set_invalid' in kinds) and 'read' in kinds
 
     def outcome(self, st):
         return self.canon(st)
@@ -335,7 +377,9 @@ PROF_CONFIGS = [
     {'cls': 'CurveOfGrowth', 'error': True, 'units': False, 'data': 'star'},
     {'cls': 'RadialProfile', 'error': False, 'units': True, 'data': 'star'},
     {'cls': 'CurveOfGrowth', 'error': False, 'units': True, 'data': 'star'},
+    # all-zero data: normalize() takes its early exit ('cannot be normalized because the max or sum is zero')
     {'cls': 'RadialProfile', 'error': False, 'units': False, 'data': 'zero'},
+    {'cls': 'CurveOfGrowth', 'error': True, 'units': False, 'data': 'zero'},
 ]
 PROF_SCALED = {'profile', 'profile_error', 'data_profile', 'ee'}
 
@@ -389,7 +433,9 @@ class ProfSystem:
         return st
 
     def ops(self, st):
-        return [('read', r) for r in self.reads] + [('normalize', 'max'), ('normalize', 'sum'), ('unnormalize',)]
+        # ('normalize', 'bogus'): not a documented method -> ValueError; nothing may change (exceptional exit)
+        return [('read', r) for r in self.reads] + [('normalize', 'max'), ('normalize', 'sum'), ('unnormalize',),
+                                                    ('normalize', 'bogus')]
 
     def canon(self, st):
         return state_key(vars(st.obj), st.hist)
@@ -399,6 +445,13 @@ class ProfSystem:
             obj = self.make()
             self._fresh[name] = observe(lambda: _prof_read(obj, name))
         return self._fresh[name]
+
+    def fresh_normalize(self, method):
+        k = ('normalize', method)
+        if k not in self._fresh:
+            obj = self.make()
+            self._fresh[k] = observe(lambda: obj.normalize(method))
+        return self._fresh[k]
 
     def expected(self, st, name):
         f = self.fresh(name)
@@ -440,6 +493,16 @@ class ProfSystem:
             return True
         if op[0] == 'normalize':
             r = observe(lambda: obj.normalize(op[1]))
+            if op[1] not in ('max', 'sum'):
+                # documented domain {'max', 'sum'}: compared with a fresh object by exception type; the scalar
+                # model keeps its normalisation (if the request is accepted the model cannot follow: unusable)
+                f = self.fresh_normalize(op[1])
+                self.counters['validation_error_calls'] = self.counters.get('validation_error_calls', 0) + 1
+                c = compare(r, f)
+                if c:
+                    report('mutator-' + c[0], f'{self.cls}.normalize:invalid-method', repr(r), repr(f), c[1])
+                    return False
+                return isinstance(r, Raised)
             if isinstance(r, Raised):
                 report('mutator-raises', f'{self.cls}.normalize', repr(r), 'no exception')
                 return False
@@ -450,6 +513,9 @@ class ProfSystem:
                 n = np.nanmax(cur) if op[1] == 'max' else np.nansum(cur)
             if n != 0:
                 st.aux['scale'] = st.aux['scale'] * n
+            # measured exit class of normalize(): n == 0 is its early exit (warns, changes nothing)
+            ck = 'normalize_exit_' + ('normal' if n != 0 else 'zero-cannot-normalize')
+            self.counters[ck] = self.counters.get(ck, 0) + 1
             return True
         r = observe(lambda: obj.unnormalize())
         if isinstance(r, Raised):
@@ -469,6 +535,16 @@ class ProfSystem:
 
     def outcome(self, st):
         return self.canon(st)
+
+
+def _median_background():
+    """MedianBackground with the library's default clipping parameters but its OWN SigmaClip instance: the default
+    argument is one module-level SigmaClip shared by every estimator, whose private bookkeeping (_min_value,
+    _max_value, _niterations of the last clip, never read back) would put explored state outside the object --
+    a request that leaves before the estimator runs would then show the bookkeeping of whichever object ran last."""
+    from astropy.stats import SigmaClip
+    from photutils.background import MedianBackground
+    return MedianBackground(sigma_clip=SigmaClip(sigma=3.0, maxiters=10))
 
 
 # =========================================================================== PSF photometry
@@ -507,6 +583,8 @@ def _psf_init(seed, which, kind):
         return Table({'x': x, 'y': y, 'flux': f, 'local_bkg': [0.4, 0.1, -0.2][:len(x)]})
     if kind == 'off':
         return Table({'x': [-40.0] + x[1:], 'y': y, 'flux': f})
+    if kind == 'off+gid':
+        return Table({'x': [-40.0] + x[1:], 'y': y, 'flux': f, 'group_id': [1] * (len(x) - 1) + [2]})
     if kind == 'xyf*u':
         return QTable({'x': x, 'y': y, 'flux': np.array(f) * u.Jy})
     raise AssertionError(kind)
@@ -525,8 +603,17 @@ PSF_CALLS = [
     ('A', False, False, True, 'xyf'),
     ('A', False, False, False, 'xyf+lbkg'),
     ('Z', False, False, False, None),
+    ('A', False, 'cover', False, 'xyf'),
+    ('A', False, False, False, 'off+gid'),
+    ('A', False, 'cover', False, 'xyf+gid'),
 ]
-ITER_CALLS = [PSF_CALLS[i] for i in (0, 1, 2, 3, 5, 10)]
+# exit classes of __call__ in the alphabet (measured per transition: counters psf_calls_exit_*):
+#   normal result; 'Z' = the finder detects nothing -> None (early return after the per-call reset);
+#   'off' = a source without overlap -> ValueError BEFORE anything is fitted (init_params not yet stored);
+#   'cover' = the mask hides every pixel of the LAST source's fit box -> ValueError in the MIDDLE of the fit loop
+#   (the first group is already fitted, per-call results half filled);
+#   both raising requests x {without, with} a group_id column (the argument that makes a call ignore the grouper)
+ITER_CALLS = [PSF_CALLS[i] for i in (0, 1, 2, 3, 5, 10, 7, 11, 12, 13)]
 PSF_CONFIGS = [
     {'cls': 'PSFPhotometry', 'grouper': True, 'localbkg': False},
     {'cls': 'PSFPhotometry', 'grouper': False, 'localbkg': False},
@@ -552,13 +639,13 @@ class PsfSystem(CallSystem):
         self.name = cfg['cls']
 
     def make(self):
-        from photutils.background import LocalBackground, MedianBackground
+        from photutils.background import LocalBackground
         from photutils.detection import DAOStarFinder
         from photutils.psf import CircularGaussianPRF, IterativePSFPhotometry, PSFPhotometry, SourceGrouper
         c = self.cfg
         psf = CircularGaussianPRF(fwhm=2.4)
         kw = dict(finder=DAOStarFinder(6.0, 2.4), grouper=SourceGrouper(5.0) if c['grouper'] else None,
-                  localbkg_estimator=LocalBackground(4.0, 7.0, MedianBackground()) if c['localbkg'] else None,
+                  localbkg_estimator=LocalBackground(4.0, 7.0, _median_background()) if c['localbkg'] else None,
                   aperture_radius=3.0, xy_bounds=(2.0, 2.0))
         if c['cls'] == 'PSFPhotometry':
             return PSFPhotometry(psf, (5, 5), **kw)
@@ -572,7 +659,11 @@ class PsfSystem(CallSystem):
         return '__call__'
 
     def expected_invalid(self, op):
-        return op[5] == 'off'        # a source without overlap with the image: documented ValueError
+        # a source without overlap with the image / a completely masked source: documented ValueErrors
+        return op[5] in ('off', 'off+gid') or op[3] == 'cover'
+
+    def is_empty(self, op, obs):
+        return obs['table'] is None        # the finder detected nothing: __call__ returns None
 
     def _core(self, obj):
         return obj if self.cfg['cls'] == 'PSFPhotometry' else obj._psfphot
@@ -603,6 +694,8 @@ class PsfSystem(CallSystem):
             m = np.zeros(shape, bool)
             m[9, 8] = True
             m[17:19, 19] = True
+            if mask == 'cover':        # the whole 5x5 fit box of the isolated star at (19.2, 17.7) -> init (19.5, 17.5)
+                m[14:22, 16:24] = True
         e = np.full(shape, 0.5) + 0.01 * (np.arange(shape[1]) % 3) if error else None
         data = img * u.Jy if units else img
         if e is not None and units:
@@ -624,24 +717,35 @@ class PsfSystem(CallSystem):
 
 # =========================================================================== star finders
 def _sf_scene(seed, which):
-    rng = np.random.default_rng(5000 + seed + {'A': 0, 'B': 1, 'Z': 2}[which])
-    shape = {'A': (31, 33), 'B': (27, 24), 'Z': (31, 33)}[which]
+    rng = np.random.default_rng(5000 + seed + {'A': 0, 'B': 1, 'Z': 2, 'H': 3}[which])
+    shape = {'A': (31, 33), 'B': (27, 24), 'Z': (31, 33), 'H': (27, 24)}[which]
     src = {'A': [(8.3, 9.1, 90.0), (20.6, 12.4, 60.0), (15.2, 23.7, 70.0)], 'B': [(6.4, 7.2, 80.0), (16.9, 18.1, 50.0)],
-           'Z': []}[which]
+           'Z': [], 'H': []}[which]
     yy, xx = np.mgrid[0:shape[0], 0:shape[1]]
     img = rng.normal(0.0, 0.3, shape)
     for x, y, a in src:
         img += a * np.exp(-((xx - x) ** 2 + (yy - y) ** 2) / (2 * 1.3 ** 2))
+    if which == 'H':        # two single hot pixels: detected as peaks, rejected by the sharpness criterion
+        img[9, 8] += 400.0
+        img[17, 15] += 300.0
     return img
 
 
 # (image, mask?, units?): a finder configured without units accepts only the unit-less calls and vice versa
 # (the others are documented validation errors, kept in the alphabet because a failed call must not poison later ones)
+# Exit classes (measured: counters finder_calls_exit_*): a table; None because nothing is above the threshold
+# ('Z': return before a catalogue exists); None because every detected peak fails the sharpness/roundness cuts
+# ('H': return after the catalogue was built and filtered); an exception (unit mismatch: raised before anything
+# is computed; mask of the wrong shape 'badshape': raised in the middle of the peak search).
 SF_CALLS = [('A', False, False), ('B', False, False), ('A', True, False), ('Z', False, False),
-            ('A', False, True), ('B', False, True), ('Z', False, True), ('A', True, True)]
+            ('A', False, True), ('B', False, True), ('Z', False, True), ('A', True, True),
+            ('H', False, False), ('H', False, True), ('A', 'badshape', False), ('A', 'badshape', True)]
 SF_CONFIGS = [{'cls': 'DAOStarFinder', 'units': False}, {'cls': 'IRAFStarFinder', 'units': False},
               {'cls': 'StarFinder', 'units': False}, {'cls': 'DAOStarFinder', 'units': True},
-              {'cls': 'StarFinder', 'units': True}, {'cls': 'DAOStarFinder', 'units': False, 'brightest': 2}]
+              {'cls': 'StarFinder', 'units': True}, {'cls': 'DAOStarFinder', 'units': False, 'brightest': 2},
+              # peakmax below the hot pixels of 'H' (StarFinder has no sharpness cut: this is its
+              # 'sources were found, but none pass' exit), above every star of 'A' and 'B'
+              {'cls': 'StarFinder', 'units': False, 'peakmax': 200.0}]
 
 
 class FinderSystem(CallSystem):
@@ -659,7 +763,7 @@ class FinderSystem(CallSystem):
         if c['cls'] == 'StarFinder':
             yy, xx = np.mgrid[0:7, 0:7]
             kern = 3.0 * np.exp(-((xx - 3) ** 2 + (yy - 3) ** 2) / (2 * 1.3 ** 2))    # max != 1
-            return pd.StarFinder(thr, kern, min_separation=3.0)
+            return pd.StarFinder(thr, kern, min_separation=3.0, peakmax=c.get('peakmax'))
         kw = {'brightest': c['brightest']} if c.get('brightest') else {}
         return getattr(pd, c['cls'])(thr, 3.0, **kw)
 
@@ -670,7 +774,8 @@ class FinderSystem(CallSystem):
         return '__call__' if op[0] == 'find' else 'find_stars'
 
     def expected_invalid(self, op):
-        return bool(op[3]) != bool(self.cfg['units'])      # threshold and data must both have units or neither
+        # threshold and data must both have units or neither; the mask must have the shape of the data
+        return bool(op[3]) != bool(self.cfg['units']) or op[2] == 'badshape'
 
     def config(self, obj):
         return {k: (vars(v) if type(v).__name__ == '_StarFinderKernel' else v) for k, v in vars(obj).items()}
@@ -683,6 +788,8 @@ class FinderSystem(CallSystem):
         if mask:
             m = np.zeros(img.shape, bool)
             m[7:11, 7:11] = True
+            if mask == 'badshape':
+                m = m[:-2, :-3].copy()
         data = img * u.Jy if units else img
         return obj(data, mask=m) if kind == 'find' else obj.find_stars(data, mask=m)
 
@@ -699,9 +806,36 @@ def _galaxy(seed):
     return 1000.0 * np.exp(-r / 7.0) + rng.normal(0, 0.5, (64, 64))
 
 
-ELL_CALLS = [('fit_image', {}), ('fit_image', {'fix_center': True}), ('fit_image', {'linear': True, 'step': 1.5}),
-             ('fit_image', {'sma0': 6.0}), ('fit_image', {'fix_pa': True, 'fix_eps': True}),
-             ('fit_isophote', {'sma': 9.0})]
+# Call alphabet of Ellipse = (exit path of fit_image) x (per-call override of the geometry settings) + fit_isophote.
+# fit_image saves geometry.linear_growth / geometry.fix, overrides them from its arguments and has FOUR ways out:
+# the normal end, the early return 'Everything is fixed', the early return 'No meaningful fit was possible'
+# (first isophote not fittable) and an exception from inside the fit loop.  Every override is combined with
+# every way out; which way a call really takes is measured on the fresh object (counters ellipse_calls_exit_*).
+ELL_PATHS = {
+    'fit': {},                          # normal fit from the geometry's sma
+    'fit6': {'sma0': 6.0},              # normal fit from another starting sma
+    'nofit': {'sma0': 40.0},            # most of the first ellipse is off the 64x64 frame: 'No meaningful fit' -> []
+    'raise': {'integrmode': 'bogus'},   # not one of the documented integration modes: raises at the first sample
+}
+ELL_OVERRIDES = {
+    'none': {},
+    'fix_center': {'fix_center': True},
+    'linear': {'linear': True},
+    'geometric': {'linear': False},     # a real override for the geometry constructed with linear_growth=True
+    'fix_pa+eps': {'fix_pa': True, 'fix_eps': True},
+    'fix_all': {'fix_center': True, 'fix_pa': True, 'fix_eps': True},        # 'Everything is fixed' -> []
+    'fix_all+linear': {'fix_center': True, 'fix_pa': True, 'fix_eps': True, 'linear': True},
+}
+ELL_ISOPHOTE = [{'sma': 9.0}, {'sma': 0.0}, {'sma': 9.0, 'integrmode': 'bogus'}]
+# geometry given to the constructor: 'default' settings (nothing fixed, geometric growth), 'preset' = centre fixed
+# and linear growth set IN THE GEOMETRY (a restore to the default values instead of the saved ones is only visible
+# here), 'auto' = no geometry argument (thorough tier)
+ELL_GEOMETRIES = {'quick': ['default', 'preset'], 'thorough': ['default', 'preset', 'auto']}
+
+
+def ell_calls():
+    out = [('fit_image', p, o) for p in ELL_PATHS for o in ELL_OVERRIDES]
+    return out + [('fit_isophote', tuple(sorted(kw.items()))) for kw in ELL_ISOPHOTE]
 
 
 class EllipseSystem(CallSystem):
@@ -714,20 +848,38 @@ class EllipseSystem(CallSystem):
         self.cfg = cfg
         self.seed = seed
         self.name = 'Ellipse'
-        self.ncalls = cfg.get('ncalls', len(ELL_CALLS))
+        self.geometry = {True: 'default', False: 'auto'}.get(cfg.get('geometry', 'default'), cfg.get('geometry', 'default'))
 
     def make(self):
         from photutils.isophote import Ellipse, EllipseGeometry
         img = _galaxy(self.seed)
-        if self.cfg.get('geometry', True):
+        if self.geometry == 'default':
             return Ellipse(img, EllipseGeometry(32.0, 31.0, 8.0, 0.25, 0.7))
+        if self.geometry == 'preset':
+            return Ellipse(img, EllipseGeometry(32.0, 31.0, 8.0, 0.25, 0.7, linear_growth=True, fix_center=True))
         return Ellipse(img)
 
     def calls(self):
-        return [(n, tuple(sorted(kw.items()))) for n, kw in ELL_CALLS[:self.ncalls]]
+        return ell_calls()
 
     def opname(self, op):
         return op[0]
+
+    def expected_invalid(self, op):
+        # integrmode outside the documented set {'bilinear', 'nearest_neighbor', 'mean', 'median'}; with all of
+        # centre, pa and eps fixed fit_image returns before the mode is ever looked at
+        if op[0] == 'fit_image':
+            return op[1] == 'raise' and not op[2].startswith('fix_all')
+        return any(k == 'integrmode' for k, _ in op[1])
+
+    def is_empty(self, op, obs):
+        return op[0] == 'fit_image' and obs['n'] == 0
+
+    def exit_tag(self, op, obs):
+        tag = super().exit_tag(op, obs)
+        if tag == 'empty-result':
+            return 'everything-fixed' if op[2].startswith('fix_all') else 'no-meaningful-fit'
+        return tag
 
     def config(self, obj):
         g = obj._geometry
@@ -735,18 +887,24 @@ class EllipseSystem(CallSystem):
                                                            'centerer_threshold')}
 
     def do(self, obj, op):
-        name, kw = op
-        kw = {k: v for k, v in kw}
-        if name == 'fit_image':
-            iso = obj.fit_image(maxsma=18.0, minsma=2.0, **kw)
+        if op[0] == 'fit_image':
+            kw = dict(ELL_PATHS[op[1]], **ELL_OVERRIDES[op[2]])
+            # step: 1.5 pixel when the growth is linear for this call (argument, else the geometry's setting),
+            # else the relative default 0.1 (keeps every normal fit at 9-30 isophotes)
+            lin = kw.get('linear', self.geometry == 'preset')
+            iso = obj.fit_image(maxsma=18.0, minsma=2.0, step=1.5 if lin else 0.1, **kw)
             t = iso.to_table() if len(iso) else None
             return {'n': len(iso), 'table': t}
-        iso = obj.fit_isophote(**kw)
+        iso = obj.fit_isophote(**dict(op[1]))
         return {'vals': [iso.sma, iso.intens, iso.eps, iso.pa, iso.x0, iso.y0, iso.stop_code, iso.niter]}
 
 
 # =========================================================================== LocalBackground
-LB_CALLS = [('s', False), ('two', False), ('three', False), ('s', True), ('edge', False), ('two', True)]
+# 'off': the annulus has no overlap with the image (empty sample); 'mismatch': x and y of different lengths
+# (raises before the aperture positions are touched); ('s', 'badshape'): mask of the wrong shape (raises AFTER
+# the positions of the internal aperture were re-assigned)
+LB_CALLS = [('s', False), ('two', False), ('three', False), ('s', True), ('edge', False), ('two', True),
+            ('off', False), ('mismatch', False), ('s', 'badshape')]
 
 
 class LocalBkgSystem(CallSystem):
@@ -756,14 +914,20 @@ class LocalBkgSystem(CallSystem):
         self.name = 'LocalBackground'
 
     def make(self):
-        from photutils.background import LocalBackground, MedianBackground
-        return LocalBackground(3.0, 6.0, MedianBackground())
+        from photutils.background import LocalBackground
+        return LocalBackground(3.0, 6.0, _median_background())
 
     def calls(self):
         return [('call',) + c for c in LB_CALLS]
 
     def opname(self, op):
         return '__call__'
+
+    def expected_invalid(self, op):
+        return op[1] == 'mismatch' or op[2] == 'badshape'
+
+    def is_empty(self, op, obs):
+        return bool(np.all(np.isnan(obs)))       # no pixel to estimate from
 
     def config(self, obj):
         return {k: v for k, v in vars(obj).items() if k != '_aperture'}
@@ -773,11 +937,13 @@ class LocalBkgSystem(CallSystem):
         rng = np.random.default_rng(7000 + self.seed)
         img = rng.normal(5.0, 1.0, (21, 23)) + np.add.outer(np.arange(21.0), np.arange(23.0)) * 0.1
         x, y = {'s': (10.3, 9.6), 'two': ([10.3, 4.0], [9.6, 15.2]), 'three': ([10.3, 4.0, 18.1], [9.6, 15.2, 3.3]),
-                'edge': (1.0, 19.5)}[pos]
+                'edge': (1.0, 19.5), 'off': (-30.0, 50.0), 'mismatch': ([10.3, 4.0], [9.6])}[pos]
         m = None
         if mask:
             m = np.zeros(img.shape, bool)
             m[5:12, 14:17] = True
+            if mask == 'badshape':
+                m = m[:-1, :-2].copy()
         return obj(img, x, y, mask=m)
 
 
@@ -808,8 +974,12 @@ class GriddedSystem(CallSystem):
         return GriddedPSFModel(nd)
 
     def calls(self):
+        # exceptional exits: ('set_oversampling', 0) is rejected by the setter (the factor in force must survive);
+        # ('eval_badshape', 2) asks for x and y arrays that cannot be broadcast (raises inside evaluate, after the
+        # interpolator cache may already have been filled for that grid cell)
         return [('eval', i) for i in range(len(GP_POS))] + [('eval_copy', 1), ('set_oversampling', 1), ('set_oversampling', 2),
-                                                            ('eval_deepcopy', 3)]
+                                                            ('eval_deepcopy', 3), ('set_oversampling', 0),
+                                                            ('eval_badshape', 2)]
 
     def opname(self, op):
         return op[0]
@@ -832,6 +1002,15 @@ class GriddedSystem(CallSystem):
         if op[0] == 'set_oversampling':
             r = observe(lambda: setattr(st.obj, 'oversampling', op[1]))
             st.hist.append(op)
+            f = self.fresh_set(op[1])
+            if isinstance(f, Raised):        # documented validation (factor must be > 0): nothing may change
+                self.counters['validation_error_calls'] += 1
+                self.counters['calls_exit_raised'] = self.counters.get('calls_exit_raised', 0) + 1
+                c = compare(r, f)
+                if c:
+                    report('setter-' + c[0], 'GriddedPSFModel.oversampling:invalid', repr(r), repr(f), c[1])
+                    return False
+                return True
             if isinstance(r, Raised):
                 report('setter-raises', 'GriddedPSFModel.oversampling', repr(r), 'no exception')
                 return False
@@ -843,11 +1022,20 @@ class GriddedSystem(CallSystem):
         st.hist.append(op)
         exp = self.fresh(op + (os_,))
         self.counters['calls'] += 1
-        tally_fresh(self, exp, False, op)
+        tally_fresh(self, exp, op[0] == 'eval_badshape', op)
+        ck = 'calls_exit_' + (self.exit_tag(op, exp) or 'normal')
+        self.counters[ck] = self.counters.get(ck, 0) + 1
         c = compare(obs, exp)       # bit-exact: same spline coefficients, same arithmetic
         if c:
             report('call-' + c[0], self.site(op, dirty_before), short(obs, 300), short(exp, 300), c[1])
         return True
+
+    def fresh_set(self, value):
+        k = ('set', value)
+        if k not in self._fresh:
+            obj = self.make()
+            self._fresh[k] = observe(lambda: setattr(obj, 'oversampling', value))
+        return self._fresh[k]
 
     def do(self, obj, op):
         kind, i, os_ = op
@@ -857,6 +1045,8 @@ class GriddedSystem(CallSystem):
         yy, xx = np.mgrid[0:9, 0:9]
         xx = xx + int(x0) - 4.0
         yy = yy + int(y0) - 4.0
+        if kind == 'eval_badshape':
+            yy = yy[:-1, :-2]
         m = obj
         if kind == 'eval_copy':
             m = obj.copy()
@@ -895,9 +1085,7 @@ def all_systems(tier):
     out += [('profile', c) for c in PROF_CONFIGS]
     out += [('psf', c) for c in PSF_CONFIGS]
     out += [('finder', c) for c in SF_CONFIGS]
-    out += [('ellipse', {'geometry': True, 'ncalls': 6 if tier == 'thorough' else 4})]
-    if tier == 'thorough':
-        out += [('ellipse', {'geometry': False, 'ncalls': 4})]
+    out += [('ellipse', {'geometry': g}) for g in ELL_GEOMETRIES[tier]]
     out += [('localbkg', {}), ('gridded', {})]
     return out
 
@@ -1025,12 +1213,24 @@ def describe(tier, seed):
                              'axes': {k: len(v) for k, v in BKG_AXES.items()},
                              'reads': BKG_READS, 'bound': 'fixpoint of the reachable cache states (depth cap %d)' % BKG_DEPTH},
             'apertures': {'classes': list(AP_CLASSES), 'positions': 3, 'values_per_attribute': 2, 'reads': AP_READS,
+                          'rejected_assignments': ['positions = three numbers', 'first shape attribute = -1'],
                           'depth': depth_of('aperture', None, tier)},
-            'profiles': {'configs': PROF_CONFIGS, 'depth': depth_of('profile', None, tier)},
-            'psf': {'configs': PSF_CONFIGS, 'calls': len(PSF_CALLS), 'iterative_calls': len(ITER_CALLS),
+            'profiles': {'configs': PROF_CONFIGS, 'mutators': ['normalize(max)', 'normalize(sum)', 'unnormalize()',
+                                                               'normalize(bogus) -> ValueError'],
+                         'depth': depth_of('profile', None, tier)},
+            'psf': {'configs': PSF_CONFIGS, 'calls': PSF_CALLS, 'iterative_calls': ITER_CALLS,
+                    'exceptional_calls': ['Z: finder detects nothing -> None',
+                                          'off / off+gid: source without overlap -> ValueError before any fit',
+                                          'cover x {xyf, xyf+gid}: last source completely masked -> ValueError inside '
+                                          'the fit loop'],
                     'depth': depth_of('psf', None, tier)},
-            'finders': {'configs': SF_CONFIGS, 'calls': len(SF_CALLS) + 1, 'depth': depth_of('finder', None, tier)},
-            'ellipse': {'calls': ELL_CALLS, 'depth': 2},
+            'finders': {'configs': SF_CONFIGS, 'calls': SF_CALLS + [('find_stars', 'A', False, False)],
+                        'exceptional_calls': ['Z: nothing above threshold -> None', 'H: detections all rejected -> None',
+                                              'unit mismatch -> ValueError', 'badshape mask -> ValueError'],
+                        'depth': depth_of('finder', None, tier)},
+            'ellipse': {'geometries': ELL_GEOMETRIES[tier], 'fit_image_exit_paths': ELL_PATHS,
+                        'fit_image_overrides': ELL_OVERRIDES, 'fit_isophote': ELL_ISOPHOTE,
+                        'calls': len(ell_calls()), 'depth': depth_of('ellipse', None, tier)},
             'localbkg': {'calls': LB_CALLS, 'depth': depth_of('localbkg', None, tier)},
             'gridded': {'positions': GP_POS, 'depth': depth_of('gridded', None, tier)},
         }}
